@@ -19,7 +19,8 @@ import (
 	"strings"
 )
 
-const jcaseHeader = `From Verif Require Import Base Scope Types Prog Pop Token Authorize System Config Run Jar JarSpec C07.
+const jcaseHeader = `From Verif Require Import Base Scope Types Prog Pop Token Authorize System Config Run Jar JarSpec.
+Require Import Verif.Corr.C07.
 Local Open Scope N_scope.
 `
 
